@@ -29,6 +29,11 @@ def one_config(label, exe_cmd, tier, violations):
     # the serialised documents do not depend on this feature set; when another configuration produced byte-identical
     # entry documents AND a byte-identical schema, its (already computed, clean) verdict on the entries is this one's too
     entry_files = files[:-1]
+    sp, sp1 = os.path.join(out, 'schema.json'), os.path.join(out, 'schema_first.json')
+    if open(sp).read() != open(sp1).read():
+        violations.append({'key': 'schema-depends-on-generation-history', 'msg': '[features %s] schema_for!(PortableRegistry) generated first and generated again after the schemas of the component types differ (%d vs %d bytes); documents are validated against the first' % (label, os.path.getsize(sp1), os.path.getsize(sp)),
+                           'case': {'kind': 'schema-twice', 'features': label}})
+        shutil.copyfile(sp1, sp)
     key = (digest_of([os.path.join(out, 'schema.json')]), digest_of(entry_files))
     reuse = _seen.get(key)
     if reuse is not None and reuse['clean']:
